@@ -171,6 +171,19 @@ CLAIMED["C12"] = (
     "custom AST dataflow: dependency templates, must-facts per path class, sibling loop agreement (static analysis)",
     "DESIGN.md section 5, C12",
 )
+CLAIMED["C18"] = (
+    "Claimed for recognition / dispatch / table clauses and the dataflow shape of the rescale expansion: an accelerator is "
+    "selected only for a kernel class it declares; the body-equivalence test rejects different lengths and compares every "
+    "op of both bodies pairwise without filtering; ParseLinalgBody rewrites only after operand-count, Parsable and "
+    "equivalence tests; every SupportedKernel lists #operands+#results types and every equivalent region declares that "
+    "many arguments and yields one value; is_same_kernel compares class and types; on every path LowerRescale emits "
+    "trunc(max(min(trunc(shr(mul(extsi(in-zp_in),mult),shift))+zp_out,max_int),min_int)) with each constant from its own "
+    "attribute; only single-kernel bodies are expanded. NOT decided: equality of the scalar functions on all integer "
+    "inputs. The dead operand-type test (F-13) and the wiring-blind equivalence test (F-14) are listed known findings.",
+    WALKER_NOTE,
+    "contradiction/ineffective-check detection, read-set (information-flow) analysis, table agreement over the kernel dialect, expanded-expression templates per path class (static analysis)",
+    "DESIGN.md section 5, C18",
+)
 NOT_APPLICABLE = {
     "C02": "address-stream equality is integer arithmetic over runtime strides/bounds; no structural necessary condition carries weight (DESIGN.md section 5, C02)",
 }
